@@ -49,7 +49,64 @@ def run(repo: Repo, tier: str, res: CheckResult, seed: int = 0) -> None:
     for f in sub.findings:
         if f.rule in known_rt:
             res.add(Finding("C01", known_rt[f.rule], f.file, f.qualname, f.construct, f.message, f.line))
+    enum_tables_agree(repo, res)
+    facade_caches_agree(repo, res)
     res.assumptions = list(ASSUMPTIONS)
+
+
+def enum_tables_agree(repo: Repo, res: CheckResult) -> None:
+    """The default enum codec: the dumper emits member.value for EVERY member, so the loader's lookup must know every member's
+    value or fall back to Enum(value) (audit shared with C18; reported here as a round-trip clause)."""
+    from . import c18
+    sub = CheckResult("C01")
+    c18.exact_value_loader(repo, repo.mod(c18.EP), sub)
+    res.evaluated("roundtrip:enum-value-tables", True)
+    for f in sub.findings:
+        if f.rule in ("ENUM.tables", "ENUM.unhashable-fallback"):
+            res.add(Finding("C01", "ROUNDTRIP.enum-dumped-value-not-loadable", f.file, f.qualname, f.construct,
+                            "the dumper of the default enum codec emits the value of every member; " + f.message, f.line))
+
+
+def _resolved_key(fn: ast.FunctionDef, sub: ast.Subscript) -> ast.AST:
+    """the subscript's key with a local name replaced by the single expression assigned to it"""
+    key = sub.slice
+    if isinstance(key, ast.Name):
+        assigns = [a for a in ast.walk(fn) if isinstance(a, ast.Assign) and len(a.targets) == 1 and isinstance(a.targets[0], ast.Name)
+                   and a.targets[0].id == key.id]
+        if len(assigns) == 1:
+            return assigns[0].value
+    return key
+
+
+def facade_caches_agree(repo: Repo, res: CheckResult) -> None:
+    """Retort.load and Retort.dump of one retort go through get_loader / get_dumper, each with a per-retort memo keyed by the
+    type. The two memos must distinguish types alike: a key that projects the type (repr, name, id ...) on one side lets two types
+    share the loader while they keep their own dumpers."""
+    m = repo.mod("morphing/facade/retort")
+    ci = m.classes.get("AdornedRetort")
+    if ci is None or "get_loader" not in ci.methods or "get_dumper" not in ci.methods:
+        raise AnalysisError("anchor vanished: AdornedRetort.get_loader/get_dumper")
+    keys = {}
+    for name in ("get_loader", "get_dumper"):
+        fn = ci.methods[name]
+        subs = [s for s in ast.walk(fn) if isinstance(s, ast.Subscript) and isinstance(s.value, ast.Attribute) and s.value.attr.endswith("_cache")]
+        if not subs:
+            continue        # no memo on this side: nothing to disagree with
+        params = [a for a in func_params(fn) if a != "self"]
+        ks = {norm(_resolved_key(fn, s)).replace(params[0] if params else "\0", "<type>") for s in subs}
+        keys[name] = (ks, subs[0].lineno)
+    res.evaluated("roundtrip:facade-memo-keys", True)
+    if len(keys) == 2 and keys["get_loader"][0] != keys["get_dumper"][0]:
+        res.add(Finding("C01", "ROUNDTRIP.facade-memo-asymmetry", m.rel, "AdornedRetort.get_loader",
+                        f"loader memo keyed by {sorted(keys['get_loader'][0])}, dumper memo by {sorted(keys['get_dumper'][0])}",
+                        f"the per-retort memo of loaders is keyed by {sorted(keys['get_loader'][0])} while the memo of dumpers is keyed "
+                        f"by {sorted(keys['get_dumper'][0])}: two types that one key conflates and the other distinguishes get one "
+                        "shared loader but separate dumpers, so load(dump(x, T2), T2) runs the loader made for T1", keys["get_loader"][1]))
+    for name, (ks, line) in keys.items():
+        if ks != {"<type>"}:
+            res.add(Finding("C01", "ROUNDTRIP.facade-memo-projects-type", m.rel, f"AdornedRetort.{name}", f"memo keyed by {sorted(ks)}",
+                            f"the memo of {name} is keyed by {sorted(ks)}, not by the type hint itself: distinct types with the same "
+                            "projection share one compiled function", line))
 
 
 def _emitted_type(repo: Repo, m, e: ast.AST, depth: int = 0):
